@@ -27,3 +27,24 @@ package geo
 //@   pure
 //@   ensures same(result, sumPolygons(mp, len(mp)))
 //@   loop 1: invariant -1 <= rangeindex && rangeindex < len(mp) && same(sum, sumPolygons(mp, rangeindex + 1))
+
+// ---------------------------------------------------------------- the generic entry point returns what the kind-specific function returns
+// nil and the 0/1-dimensional kinds have area 0, a ring |ringArea|, polygons and multi-polygons their
+// typed function, a collection the left-to-right sum of Area over its members
+//@ spec sumAreas(c orb.Collection, n int) float64 = ite(n <= 0, 0.0, sumAreas(c, n-1) + Area(c[n-1]))
+//@ func collectionArea(c)
+//@   floats abstract
+//@   allocates
+//@   function
+//@   ensures same(result, sumAreas(c, len(c)))
+//@   loop 1: invariant -1 <= rangeindex && rangeindex < len(c) && same(area, sumAreas(c, rangeindex + 1))
+//@ func Area(g)
+//@   floats abstract
+//@   allocates
+//@   function
+//@   ensures g == nil ==> same(result, 0.0)
+//@   ensures istype(g, orb.Point) || istype(g, orb.MultiPoint) || istype(g, orb.LineString) || istype(g, orb.MultiLineString) ==> same(result, 0.0)
+//@   ensures istype(g, orb.Ring) ==> same(result, math.Abs(ringArea(as(g, orb.Ring))))
+//@   ensures istype(g, orb.Polygon) ==> same(result, polygonArea(as(g, orb.Polygon)))
+//@   ensures istype(g, orb.MultiPolygon) ==> same(result, sumPolygons(as(g, orb.MultiPolygon), len(as(g, orb.MultiPolygon))))
+//@   ensures istype(g, orb.Collection) ==> same(result, sumAreas(as(g, orb.Collection), len(as(g, orb.Collection))))
